@@ -118,6 +118,10 @@ def run(ck):
         vals = [rng.randint(1, 30) for _ in range(n)]
         groups.append(agree_group(vals, k, rng, ilp=(not q and i % 10 == 0)))
         ck.cat("agreement_groups")
+    for i in range(40 if q else 800):      # one item at least as large as all the others together, four bins: the rest is an instance of its own with three bins
+        rest = [rng.randint(1, rng.choice([30, 60, 200])) for _ in range(rng.randint(8, 9))]
+        groups.append(agree_group([sum(rest) + rng.choice([0, 1, 5, 40])] + rest, 4, rng, ilp=False))
+        ck.cat("agreement_groups_heavy_item")
     for g in gen.near_equal_large(rng, 12 if q else 250):      # large, relatively close values (tolerance comparisons, precision): exact solvers must still agree
         groups.append(agree_group(g["vals"], g["k"], rng, ilp=False))
         ck.cat("agreement_groups_large_near_equal")
